@@ -977,3 +977,544 @@ func ruleFirstRootfile(c *eng.Ctx) {
 		c.Undec(R, "epubdoc.parseContainer#rootfile-loop", fn.Pos(), "no loop over the rootfile list found")
 	}
 }
+
+// R17.12 [C17]
+func ruleSheetTextUntrimmed(c *eng.Ctx) {
+	const R = "R17.12-SHEET-TEXT-UNTRIMMED"
+	c.Rule(R, "the tab-separated text of a workbook is returned as it was built: no strings.TrimSpace, Trim, TrimLeft or TrimPrefix is applied to the whole output. Tabs and line breaks at the start are the empty cells and empty rows in front of the first value; cutting them moves the first populated row to line 1, field 1 and shifts every line after it", 1, 0)
+	fn := c.P.Func("xlsx.(*Reader).TextWithOptions")
+	if fn == nil {
+		c.Undec(R, "xlsx.(*Reader).TextWithOptions", token.NoPos, "anchor not found")
+		return
+	}
+	leadingTrim := map[string]bool{"strings.TrimSpace": true, "strings.Trim": true, "strings.TrimLeft": true, "strings.TrimPrefix": true, "strings.TrimLeftFunc": true, "strings.TrimFunc": true}
+	n := 0
+	for _, r := range eng.Returns(fn) {
+		if len(r.Results) == 0 {
+			continue
+		}
+		if cs, ok := eng.ConstString(r.Results[0]); ok && cs == "" {
+			continue
+		}
+		n++
+		bad := ""
+		for w := range eng.Slice(r.Results[0], func(*ssa.Call) bool { return true }) {
+			if call, ok := w.(*ssa.Call); ok && leadingTrim[eng.CalleeName(call)] {
+				// trimming one cell or one line while the text is built is fine: only a trim of what the builder holds
+				for a := range eng.Slice(call.Call.Args[0], func(*ssa.Call) bool { return false }) {
+					if inner, ok := a.(*ssa.Call); ok && (strings.HasSuffix(eng.CalleeName(inner), ").String") || strings.HasSuffix(eng.CalleeName(inner), "strings.Join")) {
+						bad = eng.CalleeName(call) + " at " + c.P.Pos(call.Pos())
+					}
+				}
+			}
+		}
+		c.Check(bad == "", R, fmt.Sprintf("xlsx.(*Reader).TextWithOptions#return%d", n), r.Pos(), "the text is returned as built", "the whole text goes through "+bad+": a sheet whose first cell is not A1 loses its leading empty rows and cells, and every value moves to another line and field")
+	}
+}
+
+// R16.14 [C16]
+func ruleDecodedElementsAllKept(c *eng.Ctx) {
+	const R = "R16.14-DECODED-ELEMENTS-ALL-KEPT"
+	c.Rule(R, "the DOCX body decoder keeps every paragraph and every table it decodes: between DecodeElement and the append no branch looks into the decoded element (its runs, its text). The order of body elements is restored afterwards by counting start tags (the k-th <w:p> is Paragraphs[k]), so a paragraph dropped here shifts every later paragraph against the tables", 2, 0)
+	fn := c.P.Func("docx.(*bodyXML).UnmarshalXML")
+	if fn == nil {
+		c.Undec(R, "docx.(*bodyXML).UnmarshalXML", token.NoPos, "anchor not found")
+		return
+	}
+	n := 0
+	for _, h := range eng.Cluster(fn, 1) {
+		if h.Pkg != fn.Pkg {
+			continue
+		}
+		for _, ci := range eng.Calls(h, false, func(nm string, _ ssa.CallInstruction) bool { return strings.HasSuffix(nm, ").DecodeElement") }) {
+			args := eng.ArgsWithRecv(ci)
+			if len(args) < 2 {
+				continue
+			}
+			var target *ssa.Alloc
+			for w := range eng.Slice(args[1], nil) {
+				if al, ok := w.(*ssa.Alloc); ok {
+					target = al
+				}
+			}
+			if target == nil {
+				continue
+			}
+			n++
+			key := fmt.Sprintf("%s#decoded(%s)", eng.FuncName(h), target.Comment)
+			bad := ""
+			for _, b := range h.Blocks {
+				iff, ok := lastIf(b)
+				if !ok || !ci.Block().Dominates(b) {
+					continue
+				}
+				for w := range eng.Slice(iff.Cond, func(*ssa.Call) bool { return true }) {
+					if ld, ok := w.(*ssa.UnOp); ok && ld.Op == token.MUL && ld.X != ssa.Value(target) && addrRoot(ld.X) == ssa.Value(target) {
+						bad = c.P.Pos(iff.Cond.Pos())
+					}
+				}
+			}
+			c.Check(bad == "", R, key, ci.Pos(), "kept whatever it contains", "whether the decoded element is kept depends on its content (test at "+bad+"): an element that is dropped here is still counted when the body order is restored, so every paragraph after it changes places with the tables")
+		}
+	}
+	if n == 0 {
+		c.Undec(R, "docx.(*bodyXML).UnmarshalXML#decode", fn.Pos(), "no DecodeElement into a local element found")
+	}
+}
+
+// R16.15 [C16, C15]
+func ruleListLevelsZeroToEight(c *eng.Ctx) {
+	const R = "R16.15-LIST-LEVELS-0-TO-8"
+	c.Rule(R, "the DOCX list level read from w:ilvl passes through unchanged for each of the nine levels WordprocessingML has (0..8): every comparison of the parsed level with a constant in parseListLevel has the same outcome for all of 0..8, so a bound, if there is one, only affects values no conforming file contains", 1, 0)
+	fn := c.P.Func("docx.parseListLevel")
+	if fn == nil {
+		c.Undec(R, "docx.parseListLevel", token.NoPos, "anchor not found")
+		return
+	}
+	var bad []string
+	n := 0
+	eng.Instrs(fn, true, func(in ssa.Instruction) {
+		b, ok := in.(*ssa.BinOp)
+		if !ok {
+			return
+		}
+		switch b.Op {
+		case token.LSS, token.LEQ, token.GTR, token.GEQ, token.EQL, token.NEQ:
+		default:
+			return
+		}
+		for _, pair := range [][2]ssa.Value{{b.X, b.Y}, {b.Y, b.X}} {
+			k, isC := eng.ConstInt(pair[1])
+			if !isC {
+				continue
+			}
+			bt, isB := pair[0].Type().Underlying().(*types.Basic)
+			if !isB || bt.Kind() != types.Int {
+				continue // comparisons of the digit characters themselves
+			}
+			if _, isLen := pair[0].(*ssa.Call); isLen {
+				continue
+			}
+			n++
+			op := b.Op
+			if pair[0] == b.Y { // constant on the left: mirror
+				switch op {
+				case token.LSS:
+					op = token.GTR
+				case token.LEQ:
+					op = token.GEQ
+				case token.GTR:
+					op = token.LSS
+				case token.GEQ:
+					op = token.LEQ
+				}
+			}
+			first, same := false, true
+			for x := int64(0); x <= 8; x++ {
+				var v bool
+				switch op {
+				case token.LSS:
+					v = x < k
+				case token.LEQ:
+					v = x <= k
+				case token.GTR:
+					v = x > k
+				case token.GEQ:
+					v = x >= k
+				case token.EQL:
+					v = x == k
+				case token.NEQ:
+					v = x != k
+				}
+				if x == 0 {
+					first = v
+				} else if v != first {
+					same = false
+				}
+			}
+			if !same {
+				bad = append(bad, fmt.Sprintf("level %s %d at %s", op, k, c.P.Pos(b.Pos())))
+			}
+		}
+	})
+	c.Check(len(bad) == 0, R, "docx.parseListLevel#levels", fn.Pos(), fmt.Sprintf("%d comparisons, none separates the levels 0..8", n), "a comparison treats some of the levels 0..8 differently from the others ("+strings.Join(bad, "; ")+"): items at the deepest levels are reported one level up and indented less")
+}
+
+// ---------------------------------------------------------------------------------------------------------------
+// numbers written in the document that say how often something is repeated
+
+// digitAccumulator: fn returns an int it builds as acc*10 + digit in a loop (a hand-written Atoi). capped reports
+// whether the function itself compares the accumulator with a constant >= 2 (a bound on what it returns).
+func digitAccumulator(fn *ssa.Function) (is, capped bool) {
+	if fn == nil || fn.Blocks == nil || fn.Signature.Results().Len() == 0 {
+		return false, false
+	}
+	if bt, ok := fn.Signature.Results().At(0).Type().Underlying().(*types.Basic); !ok || bt.Kind() != types.Int {
+		return false, false
+	}
+	var acc *ssa.Phi
+	eng.Instrs(fn, false, func(in ssa.Instruction) {
+		b, ok := in.(*ssa.BinOp)
+		if !ok || b.Op != token.MUL {
+			return
+		}
+		if k, isC := eng.ConstInt(b.Y); isC && k == 10 {
+			if ph, ok := b.X.(*ssa.Phi); ok && isLoopCarried(ph) {
+				acc = ph
+			}
+		}
+	})
+	if acc == nil {
+		return false, false
+	}
+	eng.Instrs(fn, false, func(in ssa.Instruction) {
+		b, ok := in.(*ssa.BinOp)
+		if !ok {
+			return
+		}
+		switch b.Op {
+		case token.LSS, token.LEQ, token.GTR, token.GEQ:
+		default:
+			return
+		}
+		for _, pair := range [][2]ssa.Value{{b.X, b.Y}, {b.Y, b.X}} {
+			k, isC := eng.ConstInt(pair[1])
+			if !isC || k < 2 {
+				continue
+			}
+			if bt, ok := pair[0].Type().Underlying().(*types.Basic); !ok || bt.Kind() != types.Int {
+				continue
+			}
+			for w := range eng.Slice(pair[0], nil) {
+				if w == ssa.Value(acc) {
+					capped = true
+				}
+			}
+		}
+	})
+	return true, capped
+}
+
+type repeatSink struct {
+	fn    *ssa.Function
+	at    ssa.Instruction
+	count ssa.Value
+	kind  string
+}
+
+// repeatSinks: places where a number decides how many times output is produced: the count of strings.Repeat /
+// bytes.Repeat, and the bound of a counting loop whose body writes or appends.
+func repeatSinks(fn *ssa.Function) []repeatSink {
+	var out []repeatSink
+	eng.Instrs(fn, true, func(in ssa.Instruction) {
+		if ci, ok := in.(ssa.CallInstruction); ok {
+			switch eng.CalleeName(ci) {
+			case "strings.Repeat", "bytes.Repeat":
+				out = append(out, repeatSink{in.Parent(), in, ci.Common().Args[1], "repeat count"})
+			}
+		}
+	})
+	for _, f := range append([]*ssa.Function{fn}, fn.AnonFuncs...) {
+		for _, h := range f.Blocks {
+			iff, ok := lastIf(h)
+			if !ok {
+				continue
+			}
+			cmp, ok := iff.Cond.(*ssa.BinOp)
+			if !ok || (cmp.Op != token.LSS && cmp.Op != token.LEQ) {
+				continue
+			}
+			if _, isInd := eng.Induction(cmp.X); !isInd {
+				continue
+			}
+			if call, isCall := cmp.Y.(*ssa.Call); isCall && eng.CalleeName(call) == "builtin:len" {
+				continue
+			}
+			if _, isC := eng.ConstInt(cmp.Y); isC {
+				continue
+			}
+			// i < n && len(out) < K: the second half of the condition bounds the loop by a constant
+			if iff2, ok := lastIf(h.Succs[0]); ok && len(h.Succs[0].Instrs) <= 3 {
+				if cmp2, ok := iff2.Cond.(*ssa.BinOp); ok && (cmp2.Op == token.LSS || cmp2.Op == token.LEQ) {
+					if _, isC := eng.ConstInt(cmp2.Y); isC && h.Succs[0].Succs[1] == h.Succs[1] {
+						continue
+					}
+				}
+			}
+			// the body produces output
+			produces := false
+			body := h.Succs[0]
+			for b := range eng.ReachableBlocks([]*ssa.BasicBlock{body}, func(x *ssa.BasicBlock) bool { return x == h }) {
+				for _, in := range b.Instrs {
+					if ci, ok := in.(ssa.CallInstruction); ok {
+						n := eng.CalleeName(ci)
+						if n == "builtin:append" || strings.Contains(n, ").Write") {
+							produces = true
+						}
+					}
+				}
+			}
+			if produces {
+				out = append(out, repeatSink{f, iff, cmp.Y, "loop bound"})
+			}
+		}
+	}
+	return out
+}
+
+// DebugRepeatSinks (VDEBUG=rep)
+func DebugRepeatSinks(c *eng.Ctx) {
+	if os.Getenv("VDEBUG") != "rep" {
+		return
+	}
+	for _, fn := range c.P.ModuleFuncs() {
+		if fn.Parent() != nil || fn.Blocks == nil {
+			continue
+		}
+		if is, capped := digitAccumulator(fn); is {
+			fmt.Fprintf(os.Stderr, "REP accumulator %s capped=%v\n", eng.FuncName(fn), capped)
+		}
+		for _, s := range repeatSinks(fn) {
+			var srcs []string
+			for w := range eng.Slice(s.count, func(*ssa.Call) bool { return true }) {
+				if fr, ok := eng.LoadOfField(w); ok {
+					srcs = append(srcs, fr.Struct+"."+fr.Field)
+				}
+				if call, ok := w.(*ssa.Call); ok {
+					srcs = append(srcs, "call:"+eng.CalleeName(call))
+				}
+				if p, ok := w.(*ssa.Parameter); ok {
+					srcs = append(srcs, "param:"+p.Name())
+				}
+			}
+			sort.Strings(srcs)
+			fmt.Fprintf(os.Stderr, "REP sink %s %s %s <- %v\n", c.P.Pos(s.at.Pos()), eng.FuncName(s.fn), s.kind, dedupStr(srcs))
+		}
+	}
+}
+
+// R2.16 [C02]
+func ruleParsedRepeatBounded(c *eng.Ctx) {
+	const R = "R2.16-PARSED-REPEAT-BOUNDED"
+	c.Rule(R, "a number written in the document that says how often output is repeated (a list level that becomes that many indentation steps, a repeat count) is bounded before it is used: the count of strings.Repeat and the bound of a counting loop that writes or appends never derive from a parsed number — strconv.Atoi/ParseInt, a hand-written digit accumulator, an integer attribute filled by encoding/xml — unless that number, or the field it was copied into, is compared with a constant cap in its package. Without a cap one attribute set to 2^31 makes every item write gigabytes", 4, 1)
+	type fkey struct {
+		st  string
+		idx int
+	}
+	norm := func(s string) string { return strings.TrimPrefix(s, "*") }
+	keyOfAddr := func(fa *ssa.FieldAddr) fkey { return fkey{norm(eng.TypeName(fa.X.Type())), fa.Field} }
+	fieldOf := func(v ssa.Value) (fkey, bool) {
+		switch x := v.(type) {
+		case *ssa.UnOp:
+			if fa, ok := x.X.(*ssa.FieldAddr); ok && x.Op == token.MUL {
+				return keyOfAddr(fa), true
+			}
+		case *ssa.Field:
+			return fkey{norm(eng.TypeName(x.X.Type())), x.Field}, true
+		}
+		return fkey{}, false
+	}
+	isInt := func(t types.Type) bool {
+		b, ok := t.Underlying().(*types.Basic)
+		return ok && b.Info()&types.IsInteger != 0
+	}
+	name := map[fkey]string{}
+	// sources[F]: what F is filled from — "xml", "atoi", "acc:<fn>" (uncapped accumulator), or another field
+	sources := map[fkey]map[string]bool{}
+	fieldSrc := map[fkey]map[fkey]bool{}
+	add := func(k fkey, s string) {
+		if sources[k] == nil {
+			sources[k] = map[string]bool{}
+		}
+		sources[k][s] = true
+	}
+	accCapped := map[*ssa.Function][2]bool{}
+	accOf := func(f *ssa.Function) (bool, bool) {
+		if v, ok := accCapped[f]; ok {
+			return v[0], v[1]
+		}
+		is, cp := digitAccumulator(f)
+		accCapped[f] = [2]bool{is, cp}
+		return is, cp
+	}
+	fns := c.P.ModuleFuncs()
+	for _, fn := range fns {
+		if fn.Blocks == nil {
+			continue
+		}
+		eng.Instrs(fn, false, func(in ssa.Instruction) {
+			// integer fields of structs that encoding/xml fills
+			if fa, ok := in.(*ssa.FieldAddr); ok {
+				if pt, ok := fa.X.Type().Underlying().(*types.Pointer); ok {
+					if st, ok := pt.Elem().Underlying().(*types.Struct); ok && fa.Field < st.NumFields() && isInt(st.Field(fa.Field).Type()) && strings.Contains(st.Tag(fa.Field), `xml:"`) {
+						k := keyOfAddr(fa)
+						name[k] = st.Field(fa.Field).Name()
+						add(k, "xml")
+					}
+				}
+			}
+			st, ok := in.(*ssa.Store)
+			if !ok || !isInt(st.Val.Type()) {
+				return
+			}
+			fa, ok := st.Addr.(*ssa.FieldAddr)
+			if !ok {
+				return
+			}
+			k := keyOfAddr(fa)
+			if fr, ok := eng.AsField(fa); ok {
+				name[k] = fr.Field
+			}
+			for w := range eng.Slice(st.Val, nil) {
+				switch x := w.(type) {
+				case *ssa.Extract:
+					if call, ok := x.Tuple.(*ssa.Call); ok && x.Index == 0 {
+						switch eng.CalleeName(call) {
+						case "strconv.Atoi", "strconv.ParseInt", "strconv.ParseUint":
+							add(k, "atoi")
+						}
+					}
+				case *ssa.Call:
+					if g := eng.StaticCallee(x); g != nil && eng.InModule(g) {
+						if is, capped := accOf(g); is && !capped {
+							add(k, "acc:"+eng.FuncName(g))
+						}
+					}
+				}
+				if k2, ok := fieldOf(w); ok && k2 != k && isInt(w.Type()) {
+					if fieldSrc[k] == nil {
+						fieldSrc[k] = map[fkey]bool{}
+					}
+					fieldSrc[k][k2] = true
+				}
+			}
+		})
+	}
+	// caps
+	capped := map[fkey]bool{}
+	for _, fn := range fns {
+		if fn.Blocks == nil {
+			continue
+		}
+		eng.Instrs(fn, true, func(in ssa.Instruction) {
+			b, ok := in.(*ssa.BinOp)
+			if !ok {
+				return
+			}
+			switch b.Op {
+			case token.LSS, token.LEQ, token.GTR, token.GEQ:
+			default:
+				return
+			}
+			for _, side := range [][2]ssa.Value{{b.X, b.Y}, {b.Y, b.X}} {
+				hasConst := false
+				for w := range eng.Slice(side[1], nil) {
+					if k, isC := eng.ConstInt(w); isC && k >= 2 {
+						hasConst = true
+					}
+				}
+				if !hasConst {
+					continue
+				}
+				for w := range eng.Slice(side[0], nil) {
+					if fk, ok := fieldOf(w); ok {
+						capped[fk] = true
+					}
+				}
+			}
+		})
+	}
+	// uncappedOrigin: a parsed origin of field k that no cap stands in front of
+	var uncappedOrigin func(k fkey, seen map[fkey]bool) string
+	uncappedOrigin = func(k fkey, seen map[fkey]bool) string {
+		if seen[k] || capped[k] {
+			return ""
+		}
+		seen[k] = true
+		var ss []string
+		for s := range sources[k] {
+			ss = append(ss, s)
+		}
+		sort.Strings(ss)
+		if len(ss) > 0 {
+			return k.st + "." + name[k] + " (" + strings.Join(ss, ",") + ")"
+		}
+		var ks []fkey
+		for k2 := range fieldSrc[k] {
+			ks = append(ks, k2)
+		}
+		sort.Slice(ks, func(i, j int) bool { return ks[i].st+fmt.Sprint(ks[i].idx) < ks[j].st+fmt.Sprint(ks[j].idx) })
+		for _, k2 := range ks {
+			if o := uncappedOrigin(k2, seen); o != "" {
+				return o
+			}
+		}
+		return ""
+	}
+	for _, fn := range fns {
+		if fn.Blocks == nil || fn.Parent() != nil {
+			continue
+		}
+		n := 0
+		for _, s := range repeatSinks(fn) {
+			if _, isC := eng.ConstInt(s.count); isC {
+				continue
+			}
+			// a bound established right where the count is used
+			var fields []fkey
+			direct := ""
+			for w := range eng.Slice(s.count, nil) {
+				if fk, ok := fieldOf(w); ok && isInt(w.Type()) {
+					fields = append(fields, fk)
+				}
+				if ex, ok := w.(*ssa.Extract); ok && ex.Index == 0 {
+					if call, ok := ex.Tuple.(*ssa.Call); ok {
+						switch eng.CalleeName(call) {
+						case "strconv.Atoi", "strconv.ParseInt", "strconv.ParseUint":
+							direct = eng.CalleeName(call)
+						}
+					}
+				}
+			}
+			origin := ""
+			sort.Slice(fields, func(i, j int) bool { return fields[i].st+fmt.Sprint(fields[i].idx) < fields[j].st+fmt.Sprint(fields[j].idx) })
+			for _, fk := range fields {
+				if o := uncappedOrigin(fk, map[fkey]bool{}); o != "" && origin == "" {
+					origin = o
+				}
+			}
+			if origin == "" && direct == "" {
+				continue
+			}
+			n++
+			key := fmt.Sprintf("%s#%s%d", eng.FuncName(fn), strings.ReplaceAll(s.kind, " ", "-"), n)
+			pos := s.at.Pos()
+			if pos == token.NoPos {
+				pos = s.count.Pos()
+			}
+			if origin == "" {
+				// parsed right here: the use must sit behind a comparison of the value with a constant
+				guarded := eng.GuardedBy(s.fn, s.at.Block(), func(f eng.Fact) bool {
+					_, x, y, ok := f.Cmp()
+					if !ok {
+						return false
+					}
+					_, cx := eng.ConstInt(x)
+					_, cy := eng.ConstInt(y)
+					return cx || cy
+				})
+				c.Check(guarded, R, key, pos, "the parsed count is compared with a constant before it is used", "the "+s.kind+" comes straight from "+direct+" and is used without a cap")
+				continue
+			}
+			c.Viol(R, key, pos, "the "+s.kind+" derives from "+origin+", a number written in the document that nothing compares with a cap: one attribute set to 2^31 makes this write gigabytes (out of memory) for a single item")
+		}
+	}
+	nOK := 0
+	for k := range sources {
+		if capped[k] {
+			nOK++
+			c.Ok(R, "field "+k.st+"."+name[k], token.NoPos, "parsed number with a cap in its package")
+		}
+	}
+	_ = nOK
+}
